@@ -69,6 +69,14 @@ impl DependencyProvider for Replay {
 }
 
 pub fn eval(c: &Sx) -> String {
+    // under the same watchdog as the generator runs
+    let c2 = c.clone();
+    let (tx, rx) = std::sync::mpsc::channel();
+    std::thread::spawn(move || { let _ = tx.send(eval_raw(&c2)); });
+    rx.recv_timeout(std::time::Duration::from_secs(HANG_SECS)).unwrap_or_else(|_| "(res (hang)) (store)".into())
+}
+
+fn eval_raw(c: &Sx) -> String {
     let l = c.list();
     // (solve names (reg ...) (root p v) (trace ...) ...)
     let root = l[3].list();
